@@ -31,6 +31,7 @@ func runC07(c *Ctx, r *Report) {
 	c07Numerical(c, r)
 	c07RowInit(c, r)
 	c07Bounds(c, r)
+	c07DerivedState(c, r, "C07-g")
 }
 
 func c07PairedUpdates(c *Ctx, r *Report) {
